@@ -446,14 +446,21 @@ func mapsToSet(cols []string, rows []map[string]string) []string {
 	return rowSetByName(cols, m)
 }
 
-func c05Body(nb int) func(c *mc.Ctx) {
+// c05Body: shapes=false explores the plain shape only (keyed, key column first, no column
+// operation) - the shape without known findings, where no case kills its worker, so deep
+// deviation bounds complete; shapes=true explores the tuples that leave the plain shape.
+func c05Body(nb int, shapes bool) func(c *mc.Ctx) {
 	return func(c *mc.Ctx) {
 		needRewrite("blocksize:sorter")
 		mask := c.Choose(8)
-		pos := c.ChooseDev(3)
-		keyless := c.ChooseDev(2) == 1
+		pos, keyless := 0, false
+		if shapes {
+			pos = c.ChooseDev(3)
+			keyless = c.ChooseDev(2) == 1
+		}
 		filler := c.ChooseDev(3)
 		brs := make([]c05branch, nb)
+		anyOp := false
 		for j := range brs {
 			for i := range c05keys {
 				if mask&(1<<uint(i)) != 0 {
@@ -462,7 +469,13 @@ func c05Body(nb int) func(c *mc.Ctx) {
 					brs[j].edits[i] = c.ChooseDev(3)
 				}
 			}
-			brs[j].colOp = c.ChooseDev(5)
+			if shapes {
+				brs[j].colOp = c.ChooseDev(5)
+				anyOp = anyOp || brs[j].colOp != 0
+			}
+		}
+		if shapes && pos == 0 && !keyless && !anyOp {
+			c.Skip() // a plain tuple: belongs to the other harness
 		}
 		c.Shard()
 		// shape of the tuple: failures are classified by it so that each known defect of the
@@ -475,10 +488,10 @@ func c05Body(nb int) func(c *mc.Ctx) {
 			}
 		}
 		switch {
-		case keyless:
-			shape = "keyless"
 		case anyColOp:
 			shape = "column-op"
+		case keyless:
+			shape = "keyless"
 		case pos != 0:
 			shape = "key-not-first"
 		}
@@ -681,13 +694,14 @@ func init() {
 		ID:    "C05",
 		Level: "exploration",
 		Rule: "base: every subset of 3 keys with two value columns, key column first / middle / last; N=2 (thorough also N=3) branches, each described by per-key edits {keep, set c1 to p or q, set c2, remove; add the missing key with one of two rows} and a column operation {none, add column d, remove c2, swap c1 c2, rename c2 to e}; " +
-			"the base subset is enumerated completely; key position, edits / column ops / keyless tables / 5 or 16 untouched filler rows (several blocks at the scaled block size 3; 16 exceeds the insertion-sort threshold of sort.Slice, so the collector's sort is unstable) are explored up to d deviations from 'no edit'. Each tuple is ingested and merged by the real Merger the way the CLI does (conflicts discarded, removed columns = union, SortedRows and SortedBlocks -> committed table). " +
+			"the base subset is enumerated completely; harness two-branches (and three-branches) stays in the plain shape (keyed, key first, no column operation) and explores edits and filler rows up to d deviations; harness two-branches-shapes explores the tuples that leave it: key position, edits / column ops / keyless tables / 5 or 16 untouched filler rows (several blocks at the scaled block size 3; 16 exceeds the insertion-sort threshold of sort.Slice, so the collector's sort is unstable) are explored up to d deviations from 'no edit'. Each tuple is ingested and merged by the real Merger the way the CLI does (conflicts discarded, removed columns = union, SortedRows and SortedBlocks -> committed table). " +
 			"Oracles: cell model for tuples that keep the column set (exact conflict set and result rows); laws merge(base;X,base)=X, merge(base;X,X)=X, merge(base;X,Y)=merge(base;Y,X) by column name; untouched rows unchanged under their own column names whatever the column ops and key position; SortedRows = SortedBlocks; committed result passes the structural oracle. " +
 			"non-trivial = some branch edits something; distinct by tuple",
 		Assumptions: []string{"a column removed by one branch and untouched by the others disappears; remove-vs-unchanged resolves to removal; remove-vs-modified and different changes to one cell are conflicts (the repository's own conventions)", "conflicted keys are discarded the way `wrgl merge --no-gui` does", "3 keys, 2 value columns, one column operation per branch, N <= 3"},
 		Harnesses: []*mc.Harness{
-			{Name: "two-branches", Variant: "b3", Body: c05Body(2), DevBound: map[string]int{"quick": 2, "thorough": 4}, Budget: map[string]time.Duration{"quick": 75 * time.Second, "thorough": 14 * time.Minute}},
-			{Name: "three-branches", Variant: "b3", OnlyTier: "thorough", Body: c05Body(3), DevBound: map[string]int{"thorough": 3}, Budget: map[string]time.Duration{"thorough": 14 * time.Minute}},
+			{Name: "two-branches", Variant: "b3", Body: c05Body(2, false), DevBound: map[string]int{"quick": 3, "thorough": 5}, Budget: map[string]time.Duration{"quick": 75 * time.Second, "thorough": 14 * time.Minute}},
+			{Name: "two-branches-shapes", Variant: "b3", Body: c05Body(2, true), DevBound: map[string]int{"quick": 2, "thorough": 3}, Budget: map[string]time.Duration{"quick": 60 * time.Second, "thorough": 10 * time.Minute}},
+			{Name: "three-branches", Variant: "b3", OnlyTier: "thorough", Body: c05Body(3, false), DevBound: map[string]int{"thorough": 4}, Budget: map[string]time.Duration{"thorough": 14 * time.Minute}},
 		},
 	})
 }
